@@ -41,7 +41,8 @@ var optScenarios = []optScenario{
 	// valid option maps with several entries: the OUTPUT must not depend on their iteration order either
 	{"valid-maps", map[string]interface{}{"Define": 4, "Loader": 3, "Supported": 3, "Banner": 2, "Footer": 2, "LogOverride": 3, "Alias": 2}, func() api.BuildOptions {
 		return api.BuildOptions{Outdir: "out", Bundle: true, Metafile: true,
-			Define:       map[string]string{"a.x": "1", "b.x": "2", "process.env.NODE_ENV": "\"p\"", "c.y.x": "3", "GLOBAL_FLAG": "true"},
+			Define:       map[string]string{"a.x": "1", "b.x": "2", "process.env.NODE_ENV": "\"p\"", "c.y.x": "3", "GLOBAL_FLAG": "true",
+				"CONFIG_A": "{\"a\": [1, 2]}", "CONFIG_B": "[1, {\"b\": 2}]", "CONFIG_C": "{\"c\": null}", "CONFIG_D": "[4]"},
 			Loader:       map[string]api.Loader{".js": api.LoaderJS, ".txt": api.LoaderText, ".data": api.LoaderBase64},
 			Supported:    map[string]bool{"arrow": false, "bigint": true, "nesting": false, "template-literal": false},
 			Banner:       map[string]string{"js": "/*b*/", "css": "/*c*/"},
@@ -56,7 +57,7 @@ var optScenarios = []optScenario{
 func runOptionScenarios(st *Stats, tmp string, reps int) {
 	dir := tmp + "/optscen"
 	os.MkdirAll(dir, 0o755)
-	os.WriteFile(dir+"/in.js", []byte("import a from 'pkg-a'; import b from 'pkg-b';\nif (a === -0) console.log(a.x, b.x, c.y.x, GLOBAL_FLAG, process.env.NODE_ENV, `t${a}`, () => 1, 1n);\nswitch (a) { case 1: case 1: }\nif (typeof a === 'nul') console.log(1)\n"), 0o644)
+	os.WriteFile(dir+"/in.js", []byte("import a from 'pkg-a'; import b from 'pkg-b';\nif (a === -0) console.log(a.x, b.x, c.y.x, GLOBAL_FLAG, CONFIG_A, CONFIG_B.length, CONFIG_C.c, CONFIG_D, process.env.NODE_ENV, `t${a}`, () => 1, 1n);\nswitch (a) { case 1: case 1: }\nif (typeof a === 'nul') console.log(1)\n"), 0o644)
 	os.WriteFile(dir+"/in2.js", []byte("export default { x: 1 }\n"), 0o644)
 	for _, sc := range optScenarios {
 		var first string
